@@ -3,7 +3,9 @@
 the patch applied and pass without it. On success the change is stored as /verif/seeded/<P>-<V>/."""
 import sys,re,subprocess,os,json,shutil
 P,V=sys.argv[1],sys.argv[2]
-wt=f'/tmp/seed-{P}'; out=f'/tmp/seed-{P}-out/{V}'
+PFX=sys.argv[3] if len(sys.argv)>3 else 'seed'
+SV=sys.argv[4] if len(sys.argv)>4 else V   # variant letter under which the change is stored
+wt=f'/tmp/{PFX}-{P}'; out=f'/tmp/{PFX}-{P}-out/{V}'
 env=dict(os.environ,GOFLAGS='-mod=mod',GOPROXY='off',GOSUMDB='off',GOTOOLCHAIN='local')
 head=''.join(open(f'{out}/demo_test.go').readlines()[:6])
 m=re.search(r"go test[^\n]*?-run\s+'?([A-Za-z0-9_|^$]+)'?\s+(\S+)",head)
@@ -28,12 +30,12 @@ b=sh('go build ./...')
 rc1,o1=rundemo()
 reset()
 ok = rc0==0 and rc1!=0 and b.returncode==0
-print(f'{P} {V}: unchanged rc={rc0} changed rc={rc1} build={b.returncode} -> {"CONFIRMED" if ok else "NOT CONFIRMED"}')
+print(f'{P} {V}->{SV}: unchanged rc={rc0} changed rc={rc1} build={b.returncode} -> {"CONFIRMED" if ok else "NOT CONFIRMED"}')
 if not ok: print(o0[-600:],'\n---\n',o1[-600:]); sys.exit(1)
-dst=f'/verif/seeded/{P}-{V}'; os.makedirs(dst,exist_ok=True)
+dst=f'/verif/seeded/{P}-{SV}'; os.makedirs(dst,exist_ok=True)
 for f in ('patch.diff','demo_test.go','demo_output.txt','notes.md'):
     if os.path.exists(f'{out}/{f}'): shutil.copy(f'{out}/{f}',dst)
-meta={'property':P,'variant':V,'demo_run':run,'demo_target':target,
+meta={'property':P,'variant':SV,'demo_run':run,'demo_target':target,
  'confirmed_by':'tools/confirm_seed.py: demonstration passes on the unchanged scratch worktree and fails with patch.diff applied; go build ./... succeeds with the patch (the full suite was run by the sub-agent, log tail in notes.md)',
  'demo_tail_changed':o1[-800:]}
 mp=f'{dst}/meta.json'
